@@ -398,6 +398,7 @@ impl DbRunner {
 
     pub fn perform(&mut self, a: &DAct) {
         self.script.push(dact_json(a));
+        crate::util::CURRENT_SCRIPT.with(|c| *c.borrow_mut() = json!({"family": "db", "exec": "dbhist-exec", "sqlite": self.db.sqlite, "actions": self.script}));
         match a {
             DAct::Commit(ops) => {
                 self.feat("commits");
